@@ -347,6 +347,15 @@ def handle_attrs(prog):
                         d = dotted(t)
                         if d and d.startswith("self.") and d.count(".") == 1:
                             out.setdefault((f.cls, d[5:]), []).append(f)
+    # a setter that every subclass overrides, in a class that is never constructed itself, never runs
+    from rules.r20_lowering import _constructed
+    dead = []
+    for (c, a), fs in out.items():
+        subs = prog.subclasses(c, strict=True)
+        if subs and not _constructed(prog, c.name) and all(all(f.name in k.methods for k in subs) for f in fs):
+            dead.append((c, a))
+    for k in dead:
+        out.pop(k)
     return out
 
 
